@@ -134,13 +134,17 @@ fn teval_terminal() -> Option<String> {
 
 /// C13: a scalar tolerance and the constant vector give the same trajectory (Radau transforms tolerances internally)
 fn radau_scalar_vector_tol() -> Option<String> {
-    for n in [1usize, 4, 7] {
-        let y0 = vec![1.0; n];
-        let f = Lin::new();
-        let a = solve_ivp(&f, 0.0, 1.0, &y0, Options::builder().method(Method::RADAU).rtol(1e-6).atol(1e-9).build()).unwrap();
-        let b = solve_ivp(&f, 0.0, 1.0, &y0, Options::builder().method(Method::RADAU).rtol(vec![1e-6; n]).atol(vec![1e-9; n]).build()).unwrap();
-        if a.t != b.t || a.y != b.y {
-            return Some(format!("Radau n={}: scalar tolerances give {} accepted steps, the same tolerances as constant vectors {} (trajectories differ)", n, a.naccpt, b.naccpt));
+    for m in [Method::RADAU, Method::RK23, Method::DOPRI5, Method::DOP853, Method::BDF] {
+        for n in [1usize, 4, 7] {
+            for &(x0, xe) in &[(0.0f64, 1.0f64), (1.0, -0.5)] {
+                let y0 = vec![1.0; n];
+                let f = Lin::new();
+                let a = solve_ivp(&f, x0, xe, &y0, Options::builder().method(m.clone()).rtol(1e-6).atol(1e-9).build()).unwrap();
+                let b = solve_ivp(&f, x0, xe, &y0, Options::builder().method(m.clone()).rtol(vec![1e-6; n]).atol(vec![1e-9; n]).build()).unwrap();
+                if a.t != b.t || a.y != b.y {
+                    return Some(format!("{:?} n={} on [{}, {}]: scalar tolerances give {} accepted steps, the same tolerances as constant vectors {} (trajectories differ)", m, n, x0, xe, a.naccpt, b.naccpt));
+                }
+            }
         }
     }
     None
@@ -1353,6 +1357,40 @@ fn modified_solution_counts() -> Option<String> {
     None
 }
 
+/// C15: an index-1 DAE (singular mass matrix) solved by Radau satisfies its algebraic constraint at every sample, for every mass storage,
+/// with the analytic and with the finite-difference Jacobian
+fn dae_constraint() -> Option<String> {
+    use ivp::matrix::{Matrix, MatrixStorage};
+    struct Dae { analytic: bool }
+    // y0' = -2 y0 + y1^2,   0 = y0 + y1 - 1 - 0.5 sin t
+    impl IVP for Dae {
+        fn ode(&self, t: f64, y: &[f64], d: &mut [f64]) { d[0] = -2.0 * y[0] + y[1] * y[1]; d[1] = y[0] + y[1] - 1.0 - 0.5 * t.sin(); }
+        fn jac(&self, t: f64, y: &[f64], j: &mut Matrix) {
+            if self.analytic { j[(0, 0)] = -2.0; j[(0, 1)] = 2.0 * y[1]; j[(1, 0)] = 1.0; j[(1, 1)] = 1.0; }
+            else { let n = y.len(); let mut f0 = vec![0.0; n]; self.ode(t, y, &mut f0); let mut yp = y.to_vec(); let mut f1 = vec![0.0; n];
+                for c in 0..n { let dl = (f64::EPSILON * y[c].abs().max(1e-5)).sqrt(); yp[c] = y[c] + dl; self.ode(t, &yp, &mut f1); for r in 0..n { j[(r, c)] = (f1[r] - f0[r]) / dl; } yp[c] = y[c]; } }
+        }
+        fn mass(&self, m: &mut Matrix) { m[(0, 0)] = 1.0; m[(1, 1)] = 0.0; }
+    }
+    let mut ends: Vec<Vec<f64>> = Vec::new();
+    for analytic in [true, false] {
+        for st in [MatrixStorage::Full, MatrixStorage::Banded { ml: 0, mu: 0 }] {
+            for &(x0, xe) in &[(0.0f64, 4.0f64)] {
+                let s = match solve_ivp(&Dae { analytic }, x0, xe, &[0.3, 0.7], Options::builder().method(Method::RADAU).rtol(1e-7).atol(1e-9).mass_storage(st.clone()).build()) { Ok(s) => s, Err(e) => return Some(format!("RADAU on the index-1 DAE (mass {:?}, analytic Jacobian {}): {:?}", st, analytic, e)) };
+                if s.status != Status::Success { return Some(format!("RADAU on the index-1 DAE (mass {:?}, analytic Jacobian {}): status {:?} at t = {:?}", st, analytic, s.status, s.t.last())); }
+                for (i, t) in s.t.iter().enumerate() {
+                    let g = s.y[i][0] + s.y[i][1] - 1.0 - 0.5 * t.sin();
+                    if g.abs() > 1e-5 { return Some(format!("RADAU on the index-1 DAE (mass {:?}, analytic Jacobian {}): the constraint y0 + y1 - 1 - sin(t)/2 is {:e} at sample {} (t = {:e})", st, analytic, g, i, t)); }
+                }
+                ends.push(s.y.last().unwrap().clone());
+            }
+        }
+    }
+    if ends[0] != ends[1] { return Some(format!("RADAU on the index-1 DAE: Full and Banded mass storage end with {:?} and {:?}", ends[0], ends[1])); }
+    if (0..2).any(|c| (ends[0][c] - ends[2][c]).abs() > 1e-5) { return Some(format!("RADAU on the index-1 DAE: analytic and finite-difference Jacobian end with {:?} and {:?}", ends[0], ends[2])); }
+    None
+}
+
 fn main() {
     let which = std::env::args().nth(1).unwrap_or_default();
     let r = match which.as_str() {
@@ -1363,6 +1401,7 @@ fn main() {
         "default_mass" => default_mass(),
         "matrix_dense_model" => matrix_dense_model(),
         "lu_small" => lu_small(),
+        "dae_constraint" => dae_constraint(),
         "event_at_step_start_state" => event_at_step_start_state(),
         "radau_dense_flag_invariance" => radau_dense_flag_invariance(),
         "modified_solution_counts" => modified_solution_counts(),
